@@ -153,16 +153,21 @@ func ScalePathDToPath64(path PathD, scale float64) Path64 {
 		mulX := pt.X * scale
 		mulY := pt.Y * scale
 
-		dx, _ := decimal.NewFromFloat64(mulX)
-		dy, _ := decimal.NewFromFloat64(mulY)
-
-		x, _, _ := dx.Int64(0)
-		y, _, _ := dy.Int64(0)
-
-		result[i] = Point64{X: x, Y: y}
+		result[i] = Point64{X: roundCoord(mulX), Y: roundCoord(mulY)}
 	}
 
 	return result
+}
+
+// roundCoord rounds a scaled coordinate to the nearest integer. From 2^53 on a float64 is an integer
+// already; sending it through its shortest decimal representation (17 digits) would change it.
+func roundCoord(v float64) int64 {
+	if a := math.Abs(v); a >= 1<<53 && a < 1<<63 {
+		return int64(v)
+	}
+	d, _ := decimal.NewFromFloat64(v)
+	x, _, _ := d.Int64(0)
+	return x
 }
 
 func ScalePath64ToPathD(path Path64, scale float64) PathD {
